@@ -44,6 +44,11 @@ def names(rng, tier):
               b"projects/p/q/topics/t", b"Projects/p/topics/t", b" projects/p/topics/t", b"projects/p/topics/t ",
               "projects/p/topics/\U0001F600".encode(), "projects/\U0001F600/subscriptions/x".encode(),
               b"projects/p/topics/" + b"x" * 300, b"projects/" + b"p" * 300 + b"/topics/x"]
+    # long malformed (and well-formed) values made of multi-byte characters, behind prefixes of both parities
+    for ch in ("é", "日", "\U0001D11E"):
+        for pre in (b"", b"x", b"projects/p/topic/", b"projects/p/topicz/", b"project/p", b"projects/p/topics/", b"projects/p/subscriptions/"):
+            for n in (90, 129, 300):
+                cands.append(pre + (ch * n).encode())
     # random longer strings
     pieces = [b"projects/", b"/topics/", b"/subscriptions/", b"/", b"a", b"b-c", "ü".encode(), "\U0001F600".encode(), b"topics", b"subscriptions", b"p", b"0"]
     n_rand = 300 if tier == "quick" else 20000
@@ -175,6 +180,7 @@ def ackids(rng, tier):
     pool = [b"", b"0", b"1", b"42", b"+42", b"-42", b"++1", b"+", b"-", b"00000000000000000000000001", b"18446744073709551615",
             b"18446744073709551616", b"18446744073709551617", b"99999999999999999999", b"1e3", b"0x10", b" 1", b"1 ", b"1\n", b"1_000",
             b"1,2", "١٢".encode(), "1é".encode(), b"abc", b"projects/p/subscriptions/s", b"9" * 40, b"+0", b"-0", b"+18446744073709551615"]
+    pool += [(ch * n).encode() for ch in ("é", "日", "\U0001D11E") for n in (90, 129, 300)] + [b"1" + ("é" * 200).encode()]
     lines = ["ackid.parse " + hx(p) for p in pool]
     chars = b"0123456789+- x"
     for _ in range(300 if tier == "quick" else 20000):
@@ -289,6 +295,34 @@ def flowq(rng, tier):
             elif nw:
                 ops.append(("poll:%d" if rng.chance(5, 6) else "drop:%d") % rng.below(nw))
         lines.append("flowq %d %d %s" % (mb, mm, " ".join(ops)))
+    # structured: fill up to a limit, park 2..4 waiters, then a random tail of capacity changes, polls and
+    # drops — the situations in which several waiters depend on one another's wake-ups
+    for _ in range(500 if tier == "quick" else 20000):
+        mm = rng.choice([1, 2, 3])
+        nw = rng.range(2, 4)
+        ops = ["inc:1:1"] * mm + ["new"] * nw + ["poll:%d" % i for i in range(nw)]
+        m = mm
+        alive = list(range(nw))
+        for _ in range(rng.range(2, 9)):
+            c = rng.below(10)
+            if c < 3 and m > 0:
+                k = rng.range(1, m)
+                m -= k
+                ops.append("dec:%d:%d" % (k, k))
+            elif c < 5:
+                m += 1
+                ops.append("inc:1:1")
+            elif c < 9 and alive:
+                ops.append("poll:%d" % rng.choice(alive))
+            elif len(alive) > 1:
+                w = rng.choice(alive)
+                alive.remove(w)
+                ops.append("drop:%d" % w)
+        # finally free everything and poll every waiter that is left: all of them must be released
+        if m:
+            ops.append("dec:%d:%d" % (m, m))
+        ops += ["poll:%d" % i for i in alive]
+        lines.append("flowq 1000000 %d %s" % (mm, " ".join(ops)))
     return lines
 
 
